@@ -218,7 +218,8 @@ def gen_split_case(rng, thorough=False):
 
 def gen_joinsplit_case(rng, thorough=False):
     n = rng.choice([2, 3, 4, 5, 6, 7, 8, 9, 10])
-    k = rng.choice([1, 2, 3, max(1, n - 1), n, n + 1, max(1, n // 2)])
+    k = rng.choice([1, 2, 2, 3, 3, max(1, n - 1), max(1, n // 2),
+                    rng.randint(1, n)])
     names = set(rng.sample([f for f in UNIVERSE if f != "image"],
                            rng.randint(2, 7)))
     for special in ("time", "frame", "index_online", "index"):
@@ -721,6 +722,85 @@ def strip_source_logs(flat):
     return out
 
 
+
+# --------------------------------------------------------------------------
+# Python semantics assumed by Common/PyList.v, checked against the interpreter
+# --------------------------------------------------------------------------
+def gen_pysem_case(rng):
+    tag = rng.choice([0, 0, 0, 1, 2, 2, 3, 3, 4, 4, 5, 6, 6])
+    if tag in (0, 1):
+        n = rng.randint(0, 9)
+        l1 = rng.sample(range(1, 30), n)
+        if rng.random() < 0.5:
+            l1 = sorted(l1)
+        l2 = [x for x in l1 if rng.random() < 0.55] + \
+            [rng.randint(30, 40) for _ in range(rng.randint(0, 2))]
+        rng.shuffle(l2)
+    elif tag == 2:
+        alpha = [45, 46, 48, 49, 50, 53, 57, 58, 95]
+        l1 = [rng.choice(alpha) for _ in range(rng.randint(0, 6))]
+        l2 = list(l1[:rng.randint(0, len(l1))]) if rng.random() < 0.6 else []
+        l2 += [rng.choice(alpha) for _ in range(rng.randint(0, 3))]
+    elif tag == 3:
+        l1 = [rng.randint(0, 4) for _ in range(rng.randint(0, 10))]
+        l2 = []
+    elif tag == 4:
+        l1 = [rng.choice([rng.randint(0, 2000), 32 * rng.randint(0, 60),
+                          32 + 64 * rng.randint(0, 30)]), 64]
+        l2 = []
+    elif tag == 5:
+        l1 = [rng.choice([0, 1, 9, 10, 11, 99, 100, 101, 12345,
+                          rng.randint(0, 10 ** 9)])]
+        l2 = []
+    else:
+        date = rng.choice(DATES + ["2023-02-28", "2024-12-31", "2000-02-29",
+                                   "1999-03-01", "2026-10-01"])
+        tm = "%02d:%02d:%02d%s" % (rng.randint(0, 23), rng.randint(0, 59),
+                                   rng.randint(0, 59), rng.choice(FRACS))
+        l1 = [ord(c) for c in date]
+        l2 = [ord(c) for c in tm]
+    return dict(kind="pysem", tag=tag, l1=l1, l2=l2)
+
+
+def exec_pysem(case):
+    """what CPython itself computes"""
+    tag, l1, l2 = case["tag"], list(case["l1"]), list(case["l2"])
+    if tag == 0:
+        feats = list(l1)
+        for x in feats:
+            if x not in l2:
+                feats.remove(x)
+        return feats
+    if tag == 1:
+        feats = list(l1)
+        for x in list(feats):
+            if x not in l2:
+                feats.remove(x)
+        return feats
+    if tag == 2:
+        a = "".join(chr(c) for c in l1)
+        b = "".join(chr(c) for c in l2)
+        return [1 if a <= b else 0]
+    if tag == 3:
+        return sorted(range(len(l1)), key=lambda i: l1[i])
+    if tag == 4:
+        return [round(l1[0] / l1[1])]
+    if tag == 5:
+        return [ord(c) for c in str(l1[0])]
+    inp = dict(date="".join(chr(c) for c in l1),
+               time="".join(chr(c) for c in l2))
+    _utc()
+    etime = inp["time"]
+    st = time.strptime(inp["date"] + etime[:8], "%Y-%m-%d%H:%M:%S")
+    t = time.mktime(st)
+    if len(etime) > 8:
+        t += float(etime[8:])
+    return [int(t * 8)]
+
+
+def render_pysem(case):
+    return "(%d, %s, %s)" % (case["tag"], zl(case["l1"]), zl(case["l2"]))
+
 # --------------------------------------------------------------------------
 # driver
 # --------------------------------------------------------------------------
@@ -769,15 +849,19 @@ HEADER = ("From Coq Require Import ZArith List Bool.\nImport ListNotations.\n"
 
 
 def run(run):
-    nj, ns, njs = (1500, 900, 500) if run.thorough else (170, 110, 60)
+    nj, ns, njs, npy = (1500, 900, 500, 3000) if run.thorough else \
+        (110, 70, 36, 300)
     cases = load_corpus()
     run.count("corpus", len(cases))
     cases += [gen_join_case(run.rng, run.thorough) for _ in range(nj)]
     cases += [gen_split_case(run.rng, run.thorough) for _ in range(ns)]
     cases += [gen_joinsplit_case(run.rng, run.thorough) for _ in range(njs)]
-    results = run_cases(cases, run.scratch)
+    file_cases = [c for c in cases if c["kind"] != "pysem"]
+    py_cases = [c for c in cases if c["kind"] == "pysem"] + \
+        [gen_pysem_case(run.rng) for _ in range(npy)]
+    results = run_cases(file_cases, run.scratch)
     by_fn = {}
-    for c, r in zip(cases, results):
+    for c, r in zip(file_cases, results):
         if r.get("harness_error"):
             run.broken.append(("harness(C09)", r["harness_error"][:600]))
             continue
@@ -789,20 +873,28 @@ def run(run):
             run.oracle_failure(c, r["fail"], r["finding"])
         if r["fn"] is not None:
             by_fn.setdefault(r["fn"], []).append((c, r))
+    for c in py_cases:
+        impl = exec_pysem(c)
+        run.record_case(c, len(c["l1"]) > 1, sample=False)
+        run.count("pysem:tag=%d" % c["tag"])
+        by_fn.setdefault("pysem_flat", []).append(
+            (c, dict(coq=render_pysem(c), impl=impl)))
     for fn, items in by_fn.items():
         model = common.coq_map(run.scratch, "c09_" + fn, HEADER, fn,
-                               [r["coq"] for _, r in items], shard=40)
+                               [r["coq"] for _, r in items],
+                               shard=(400 if fn == "pysem_flat" else 40))
         for (c, r), m in zip(items, model):
             run.corr_checked += 1
             mm = strip_source_logs(m) if fn == "join_split_flat" else m
             if mm != r["impl"]:
-                # where the property itself already fails on this case the
-                # oracle failure is what is reported
                 run.mismatch(c, mm, r["impl"])
 
 
 # --------------------------------------------------------------------------
 def _judge(case):
+    if case.get("kind") == "pysem":
+        return dict(impl=exec_pysem(case), fail=None, finding=None,
+                    nontrivial=True, tags=[])
     base = os.environ.get("VERIF_SCRATCH", "/var/tmp")
     import tempfile
     d = tempfile.mkdtemp(prefix="verif-C09-one-", dir=base)
